@@ -48,6 +48,20 @@ def parseShare (s : String) : Option (Option (Nat × Nat)) :=
       | _ => none
   else none
 
+def parseStep (s : String) : Option (Int × List Entry) :=
+  match s.splitOn "|" with
+  | [thr, ents] => do let thr ← thr.toInt?; let es ← parseEntries ents; pure (thr, es)
+  | _ => none
+
+/-- `<sender>:e:<v>` | `<sender>:raw:<hex>` -/
+def parseMsg (s : String) : Option (Nat × Option (Nat × Nat)) :=
+  match s.splitOn ":" with
+  | [snd, kind, v] => do
+    let snd ← snd.toNat?
+    let b ← parseShare (kind ++ ":" ++ v)
+    pure (snd, b)
+  | _ => none
+
 def insertSorted (p : Int × Nat) : List (Int × Nat) → List (Int × Nat)
   | [] => [p]
   | q :: qs => if p.1 ≤ q.1 then p :: q :: qs else q :: insertSorted p qs
@@ -99,6 +113,44 @@ def model (line : String) : String :=
       | .panic => panicNil
       | .ok e => showPt1 (g1OfExp e)
     | _, _ => "bad-op"
+  | "recseq" :: coefs :: m :: steps =>
+    match parseNats coefs, m.toNat?, steps.mapM parseStep with
+    | some (a0 :: _), some m, some steps =>
+      ";".intercalate (steps.map fun (thr, es) =>
+        match recoverSig thr es with
+        | .notEnough => "err:notenough"
+        | .panic => "panic"
+        | .ok e => showPt1 (g1OfExp e) ++ ":v=" ++ (if verify a0 m e then "t" else "f"))
+    | _, _, _ => "bad-op"
+  | "pkseq" :: coefs :: steps =>
+    match parseNats coefs, steps.mapM parseStep with
+    | some (_ :: _), some steps =>
+      ";".intercalate (steps.map fun (thr, es) =>
+        match recoverPk thr es with
+        | .notEnough => "err:notenough"
+        | .panic => "panic"
+        | .ok e => showPt2 (g2OfExp e))
+    | _, _ => "bad-op"
+  | "shareseq" :: self :: pks :: prev :: msgs =>
+    match self.toNat?, parsePairs pks, prev.toNat?, msgs.mapM parseMsg with
+    | some self, some pks, some prev, some msgs =>
+      ";".intercalate (msgs.map fun (s, b) =>
+        if s == self then "self" else
+        match validateShare s pks prev b with
+        | .unmarshal => "err:unmarshal"
+        | .nosender => "err:nosender"
+        | .invalid => "err:invalid"
+        | .accepted x y => "ok:" ++ showPt1 (x, y))
+    | _, _, _, _ => "bad-op"
+  | "entry" :: self :: n :: thr :: coefs :: prev :: msgs =>
+    match self.toNat?, n.toNat?, thr.toInt?, parseNats coefs, prev.toNat?, msgs.mapM parseMsg with
+    | some self, some n, some thr, some (a0 :: cs), some prev, some msgs =>
+      match entryModel self n thr (a0 :: cs) prev msgs with
+      | .notEnough => "timeout"
+      | .panic => "panic"
+      | .ok e => "entry:" ++ showPt1 (g1OfExp e) ++ ":v=" ++ (if verify a0 prev e then "t" else "f")
+    | _, _, _, _, _, _ => "bad-op"
+  | ["gjkr", _, _, _, _] => "SKIP"   -- keys come from the real DKG randomness; monitor only
   | _ => "bad-op"
 
 def isCrash (obs : String) : Bool := obs.startsWith "PANIC" || obs == "HANG"
@@ -142,6 +194,72 @@ def monitor (op obs : String) : String :=
     match thr.toInt?, parsePairs ents with
     | some _, some _ => if isCrash obs then "FAIL recovery-crashed" else "ok"
     | _, _ => "FAIL bad-op"
+  | "recseq" :: coefs :: m :: steps =>
+    match parseNats coefs, m.toNat?, steps.mapM parseStep with
+    | some coefs, some m, some steps =>
+      let rs := obs.splitOn ";"
+      if rs.length ≠ steps.length then "FAIL unparsable-observation" else
+      let bad := (steps.zip rs).filter fun ((thr, es), r) =>
+        if r == "panic" then !holdsRecCrashOk thr es
+        else if r.startsWith "err:" then !holdsRec thr es coefs m none
+        else match r.splitOn ":" with
+          | [pt, v] =>
+            match chunks64 pt 2 with
+            | some [x, y] => !holdsRec thr es coefs m (some ((x, y), v == "v=t"))
+            | _ => true
+          | _ => true
+      if bad.isEmpty then "ok" else "FAIL recovered-signature-is-not-the-group-signature step=" ++
+        toString ((steps.zip rs).length - ((steps.zip rs).dropWhile (fun p => !bad.contains p)).length + 1)
+    | _, _, _ => "FAIL bad-op"
+  | "pkseq" :: coefs :: steps =>
+    match parseNats coefs, steps.mapM parseStep with
+    | some coefs, some steps =>
+      let rs := obs.splitOn ";"
+      if rs.length ≠ steps.length then "FAIL unparsable-observation" else
+      let ok := (steps.zip rs).all fun ((thr, es), r) =>
+        if r == "panic" then holdsRecCrashOk thr es
+        else if r.startsWith "err:" then holdsPk thr es coefs none
+        else match chunks64 r 4 with
+          | some [xi, xr, yi, yr] => holdsPk thr es coefs (some (⟨xr, xi⟩, ⟨yr, yi⟩))
+          | _ => false
+      if ok then "ok" else "FAIL recovered-public-key-is-not-the-group-key"
+    | _, _ => "FAIL bad-op"
+  | "shareseq" :: self :: pks :: prev :: msgs =>
+    match self.toNat?, parsePairs pks, prev.toNat?, msgs.mapM parseMsg with
+    | some _, some pks, some prev, some msgs =>
+      let rs := obs.splitOn ";"
+      if rs.length ≠ msgs.length then "FAIL unparsable-observation" else
+      let ok := (msgs.zip rs).all fun ((s, b), r) =>
+        if r.startsWith "ok:" then
+          match chunks64 ((r.drop 3).toString) 2 with
+          | some [x, y] => holdsAccepted s pks prev b (x, y)
+          | _ => false
+        else r == "self" || r.startsWith "err:"
+      if ok then "ok" else "FAIL unverified-share-accepted"
+    | _, _, _, _ => "FAIL bad-op"
+  | "entry" :: _ :: _ :: thr :: coefs :: prev :: _ =>
+    match thr.toInt?, parseNats coefs, prev.toNat? with
+    | some thr, some (a0 :: cs), some prev =>
+      if obs == "timeout" then "ok"
+      else match obs.splitOn ":" with
+        | ["entry", pt, v] =>
+          match chunks64 pt 2 with
+          | some [x, y] =>
+            if v == "v=t" && (decide (((a0 :: cs).length : Int) > thr) || (x, y) == g1OfExp (a0 * prev))
+            then "ok" else "FAIL relay-entry-is-not-the-group-signature"
+          | _ => "FAIL unparsable-observation"
+        | _ => "FAIL sign-and-submit-failed"
+    | _, _, _ => "FAIL bad-op"
+  | ["gjkr", _, t, _, _] =>
+    match splitWs obs, t.toNat? with
+    | [mem, acc, ver, same], some t =>
+      let k := ((mem.drop 8).toString.toNat?).getD 0
+      let okAcc := match ((acc.drop 9).toString).splitOn "/" with
+        | [a, b] => a == b
+        | _ => false
+      if k ≥ t + 1 && okAcc && ver == "verified=t" && same == "same=t" then "ok"
+      else "FAIL gjkr-keys-do-not-recover-a-verifying-signature"
+    | _, _ => "FAIL gjkr-run-did-not-finish"
   | _ => "FAIL bad-op"
 
 def main (args : List String) : IO UInt32 := driverMain model monitor args
